@@ -85,8 +85,11 @@ def check(tier: str) -> Result:
         vfg = ea.vfg
         site, fn = env_site(ea, "step")
         masks = set()
-        obs = vfg.mk_attr(ea.step_ts, "observation")
-        for src_ in (vfg.mk_attr(obs, "action_mask"), vfg.mk_attr(ea.step_state, "action_mask")):
+        srcs = [vfg.mk_attr(ea.step_state, "action_mask")]
+        for tl, _ in leaves(ea.step_ts):
+            if tl.kind == "construct":
+                srcs.append(vfg.mk_attr(vfg.mk_attr(tl, "observation"), "action_mask"))
+        for src_ in srcs:
             for l, _ in leaves(src_):
                 l = uncopy(strip_cast(l))
                 if l.kind not in ("opaque",) and not (l.kind == "attr" and l.args[1] == "action_mask" and l.args[0] is ea.step_state):
